@@ -272,6 +272,12 @@ def _main(pid, args, seed):
     }
     text = json.dumps(ev, ensure_ascii=True, indent=1, default=repr)
     ev = json.loads(text)
+    if args.no_search:  # debugging aid: replay tier only, evidence untouched
+        for slot in violations:
+            print(f"VIOLATION property={pid} replay={slot.get('from') or save_violation(pid, slot)}")
+            print(f"  signature={slot['signature']}")
+        print(f"property={pid} replay tier only: {replayed} inputs, violations={len(violations)}")
+        return 1 if violations else 0
     try:
         validate_evidence(ev)
     except Exception as e:  # noqa: BLE001
